@@ -64,6 +64,9 @@ def popSmallest (pd : PD W) : Option (Nat × PD W) :=
   | none => none
   | some (k, heap) => some (k, { dict := pd.dict.filter (fun p => p.1 ≠ k), heap := heap })   -- `del self[k]`
 
+/-- the state a `pop_smallest()` that raised IndexError leaves: `heappop` has emptied `_heap` (every tuple was stale) -/
+def afterFailedPop (pd : PD W) : PD W := { pd with heap := [] }
+
 /-- `len(pd)` -/
 def len (pd : PD W) : Nat := pd.dict.length
 end TV.PDict
